@@ -515,7 +515,87 @@ def _o_cb_fill(w):
     return ok, f"n={n} prefilled={pre} withheld={len(withheld)}"
 
 
+_BLOCKS = {}
+
+
+def _block(name):
+    if name not in _BLOCKS:
+        with open(os.path.join(_DATA, name), "rb") as f:
+            _BLOCKS[name] = Block.parse(f.read())
+    return _BLOCKS[name]
+
+
+def _o_block_commitments(w):
+    """block-level glue on real blocks: header root = tree over txids (display order), every tx has a verifying
+    proof, a swapped / duplicated-tail transaction list is refused, witness commitment binds the witnesses,
+    assert_valid_pow agrees with the codec, chain_work is the sum of block_work."""
+    import random
+    from btclib.block.block import merkle_root_and_mutated_from_transactions
+    rng = random.Random(w["seed"])
+    blk = _block(w["block"])
+    txs = blk.transactions
+    ids = [t.id[::-1] for t in txs]
+    root, mutated = merkle_root_and_mutated_from_hashes(ids, hash256)
+    r2, m2 = merkle_root_and_mutated_from_transactions(txs)
+    if (r2, m2) != (root[::-1], mutated) or r2 != blk.header.merkle_root or mutated:
+        return False, f"{w['block']}: header root / tree root / transactions root disagree"
+    blk.assert_valid_merkle_root()
+    i = rng.randrange(len(txs))
+    br = [x[::-1] for x in ref_branch(ids, i, hash256)]
+    if not merkle_proof.verify(txs[i].id, br, i, blk.header.merkle_root):
+        return False, f"{w['block']}: tx {i} does not verify against the header root"
+    if len(txs) > 1:
+        j = (i + 1) % len(txs)
+        if merkle_proof.verify(txs[j].id, br, i, blk.header.merkle_root) and txs[j].id != txs[i].id:
+            return False, f"{w['block']}: tx {j} verifies with the branch of tx {i}"
+        sw = copy.copy(blk)
+        sw.transactions = list(txs)
+        sw.transactions[i], sw.transactions[j] = sw.transactions[j], sw.transactions[i]
+        try:
+            sw.assert_valid_merkle_root()
+            return False, f"{w['block']}: swapped transactions {i},{j} accepted"
+        except hashes.BTClibValueError:
+            pass
+    if len(txs) >= 3:
+        # an odd prefix of the block under a header committing to it, then its last transaction repeated
+        k = rng.randrange(3, len(txs) + 1) | 1
+        k = k if k <= len(txs) else k - 2
+        sub = copy.copy(blk)
+        sub.transactions = list(txs[:k])
+        sub.header = copy.copy(blk.header)
+        sub.header.merkle_root = merkle_root_and_mutated_from_transactions(sub.transactions)[0]
+        sub.assert_valid_merkle_root()
+        sub.transactions = sub.transactions + [sub.transactions[-1]]
+        if merkle_root_and_mutated_from_transactions(sub.transactions) != (sub.header.merkle_root, True):
+            return False, f"{w['block']}: duplicated tail of {k} txs not (same root, mutated)"
+        try:
+            sub.assert_valid_merkle_root()
+            return False, f"{w['block']}: CVE-2012-2459 duplicate of {k} txs accepted"
+        except hashes.BTClibValueError:
+            pass
+    if blk.is_segwit:
+        blk.assert_valid_witness_commitment()
+    h = blk.header
+    h.assert_valid_pow()
+    val, neg, ovf = core_set_compact(int.from_bytes(h.bits, "big"))
+    if neg or ovf or val == 0 or int.from_bytes(h.hash, "big") > val:
+        return False, f"{w['block']}: assert_valid_pow passes against Core's rule"
+    bad = copy.copy(h)
+    bad.bits = bytes([h.bits[0], h.bits[1] | 0x80]) + h.bits[2:]
+    try:
+        bad.assert_valid_pow()
+        return False, "negative bits accepted by assert_valid_pow"
+    except hashes.BTClibValueError as e:
+        if "negative" not in str(e):
+            return False, f"negative bits not refused as negative by assert_valid_pow: {e}"
+    seq = [h.bits, pw.MAINNET_POW_LIMIT_BITS, b"\x1b\x04\x04\xcb"]
+    if pw.chain_work(seq) != sum(core_block_proof(int.from_bytes(b, "big")) for b in seq):
+        return False, "chain_work is not the sum of Core's block proofs"
+    return True, f"{w['block']} ({len(txs)} txs) tx {i}"
+
+
 ORACLES = {
+    "block.commitments": _o_block_commitments,
     "pow.roundtrip": _o_pow_roundtrip,
     "pow.canonical": _o_pow_canonical,
     "pow.core": _o_pow_core,
@@ -678,6 +758,10 @@ def run(ctx):
     ctx.stream("merkle.root", roots)
     ctx.stream("merkle.branch", branches)
     ctx.stream("merkle.verify", verifies)
+
+    for name in ["block_1.bin", "block_170.bin", "block_200000.bin", "block_481824_complete.bin"]:
+        for _ in range(ctx.n(3, 40)):
+            ctx.check("block.commitments", {"block": name, "seed": rng.getrandbits(32)})
 
     # ---------------------------------------------------------------- (c) Golomb-Rice coded sets, BIP158
     enc, dec = [], []
